@@ -313,13 +313,15 @@ func runUniverse(rep *report.Report, tier, uname string, u []slot, outcomes map[
 					if (jb.i+jb.j)%2 == 1 {
 						base = 1000
 					}
-					oc, fs := one(u, cat[jb.i], cat[jb.j], jb.tv, base)
-					mu.Lock()
-					outcomes[oc]++
-					mu.Unlock()
-					for _, f := range fs {
-						rep.Violate(f.sig, f.what, map[string]any{"intended": describe(u, cat[jb.i]), "target": describe(u, cat[jb.j]), "universe": uname, "target_only_instance": tonly[jb.tv].name, "id_base": base, "map_order": rt.MapOrderName(order)})
-					}
+					rep.Guard("reconcile "+uname, map[string]any{"intended": describe(u, cat[jb.i]), "target": describe(u, cat[jb.j]), "universe": uname, "target_only_instance": tonly[jb.tv].name, "id_base": base, "map_order": rt.MapOrderName(order)}, func() {
+						oc, fs := one(u, cat[jb.i], cat[jb.j], jb.tv, base)
+						mu.Lock()
+						outcomes[oc]++
+						mu.Unlock()
+						for _, f := range fs {
+							rep.Violate(f.sig, f.what, map[string]any{"intended": describe(u, cat[jb.i]), "target": describe(u, cat[jb.j]), "universe": uname, "target_only_instance": tonly[jb.tv].name, "id_base": base, "map_order": rt.MapOrderName(order)})
+						}
+					})
 				}
 			}()
 		}
